@@ -34,6 +34,7 @@ def parseOp (j : Json) : Option Op := do
   | "mkDiag" => some (.mkDiag (← fNat? j "f"))
   | "mkAdder" => some (.mkAdder (← fNat? j "f"))
   | "applyOp" => some (.applyOp (← fNat? j "o") (← fNat? j "x"))
+  | "arrBase" => some (.arrBase (← fNat? j "a"))
   | _ => none
 
 def errName : Err → String
